@@ -125,7 +125,11 @@ def jstep (s : Store) (j : Nat) (c : JCache) (k : JKind) : JPc → JOut
   | .rdSnap h =>
     let ev := getEv s (.snap j)
     match s (.snap j) with
-    | some (.jsnap a t) => .cont s c k (.rdEnt h a t a) ev
+    | some (.jsnap a t) =>
+      -- the reader starts at the snapshot position (re-reading entry a); a snapshot newer than
+      -- the HEAD just read yields an empty reader: the newer table is cached under position h
+      if a ≤ h then .cont s c k (.rdEnt h a t a) ev
+      else afterLoad s ⟨h, t⟩ k ev
     | none => .cont s c k (.rdTail h) ev
     | _ => .done s c .io ev
   | .rdTail h =>
